@@ -28,6 +28,7 @@ ASSUMPTIONS = [
     "hand-built states of the ops-* strata are valid by the oracle's own standard before the first operator runs (checked)",
     "capacity-infeasible insertions and operators mutating (without corrupting) their input are recorded as L2 events, not violations: the statement does not promise them",
 ]
+QUICK_SCALE = 2  # quick-tier multiplier (idle 16-core timing: ~10 s at scale 1)
 STRATA = [
     ("js-random", 1200, 12000),
     ("js-gaps-zero-repeat", 900, 9000),
